@@ -182,6 +182,8 @@ package keeper
 //@       bal(addr(bidder), cd) - old(bal(addr(bidder), cd)) == A.CollateralToken.Amount - a1.0.CollateralToken.Amount && \
 //@       paid == A.DebtToken.Amount - a1.0.DebtToken.Amount
 //@   ensures [C10] #c10-partial-leaves-target: err == nil && a1.1 == nil ==> a1.0.DebtToken.Amount > 0 && a1.0.DebtToken.Amount < A.DebtToken.Amount && a1.0.BonusAmount >= 0 && a1.0.BonusAmount <= A.BonusAmount
+//@   ensures [C10] #c10-reserve-top-up-within-remaining-debt: err == nil && lv.InitiatorType != "lend" ==> old(bal(modaddr("liquidationsV2"), dd)) - bal(modaddr("liquidationsV2"), dd) <= A.DebtToken.Amount
+//@   ensures [C10] #c10-reserve-book-within-remaining-debt: err == nil ==> old(K("liquidationsV2").GetAppReserveFunds(ctx, A.AppId, A.DebtAssetId).0.TokenQuantity.Amount) - K("liquidationsV2").GetAppReserveFunds(ctx, A.AppId, A.DebtAssetId).0.TokenQuantity.Amount <= A.DebtToken.Amount
 //@   ensures [C10] #c10-close-empties-collateral: err == nil && a1.1 != nil && lv.InitiatorType != "lend" && A.CollateralToken.Amount >= 0 ==> old(bal(am, cd)) - bal(am, cd) == A.CollateralToken.Amount
 //@   ensures [C01] #c01-close-retires-vault-from-totals: err == nil && a1.1 != nil && lv.InitiatorType == "vault" ==> \
 //@       mapColl(K("vault"), ctx, A.AppId, lv.ExtendedPairId) == old(mapColl(K("vault"), ctx, A.AppId, lv.ExtendedPairId)) - lv.CollateralToken.Amount
